@@ -153,7 +153,7 @@ Definition case_fuel : nat := 6.
 
 Definition bpf_case (k : case) : C11.Spec.case :=
   C11.Spec.Build_case (match x_ver k with V6 => true | V4 => false end) fixed_variant (x_usejmps k) (x_allow k) (x_deny k)
-    (x_jump_base k) (x_stride k) (bpf_rules no_name no_name (x_tiers k) (x_profiles k)) (x_sets k) (x_bpf k) [].
+    (x_jump_base k) (x_stride k) (bpf_rules no_name no_name (x_tiers k) (x_profiles k)) (x_sets k) (x_bpf k) [] false.
 
 (* verdict of the real BPF program(s) on every packet *)
 Definition bpf_vds (k : case) : list vd :=
